@@ -193,13 +193,13 @@ fn in_context(e: &X, c: usize) -> Option<Vec<X>> {
             p.push(print(id("w")));
         }
         16 => {
-            // register pressure: 236 live locals in a function, then a 13-element list literal
+            // register pressure: 244 live locals in a function, then a 13-element list literal
             // (more elements than free registers: they are pushed in batches)
-            let mut body: Vec<X> = (0..236).map(|i| assign(&format!("a{i}"), int(i))).collect();
+            let mut body: Vec<X> = (0..244).map(|i| assign(&format!("a{i}"), int(i))).collect();
             let mut elems = vec![e.clone()];
             elems.extend((1..13).map(int));
             body.push(assign("z", list(elems)));
-            body.push(tuple(vec![id("a0"), id("a235"), id("z")]));
+            body.push(tuple(vec![id("a0"), id("a243"), id("z")]));
             p.push(assign("pressure", func(&[], body)));
             p.push(print(callf("pressure", vec![])));
         }
@@ -240,10 +240,14 @@ fn emit_tree(e: &X, family: &'static str, contexts: &[usize], in_fn: bool, emit:
 }
 
 pub fn generate(tier: Tier, emit: Emit) {
-    let all_ctx: Vec<usize> = (0..N_CONTEXTS).collect();
+    // context 16 (register pressure, 250-line programs) only for every 8th tree
+    let all_ctx: Vec<usize> = (0..N_CONTEXTS - 1).collect();
     // ops(1): full alphabet, all contexts, top level and function body
-    for t in trees1(&leaves_full(), BIN_OPS, CMP_OPS, true) {
-        emit_tree(&t, "ops1", &all_ctx, true, emit);
+    for (ti, t) in trees1(&leaves_full(), BIN_OPS, CMP_OPS, true).iter().enumerate() {
+        emit_tree(t, "ops1", &all_ctx, true, emit);
+        if ti % 8 == 0 {
+            emit_tree(t, "ops1", &[16], false, emit);
+        }
     }
     // ops(2): reduced alphabet (one operator per binding-power level)
     let bin2: &[Op] = match tier {
